@@ -3,9 +3,10 @@
     Models: [Wasm/Validate.v] (transcription of validate.rs: function level and module level),
     [Wasm/Leb128.v] (the LEB128 readers of parse.rs), [Wasm/Typing.v] (the declarative typing of
     the WebAssembly specification), [Gen/Limits.v] (generated from constants.rs on every run). *)
-From Coq Require Import ZArith NArith List Bool.
+From Coq Require Import ZArith NArith String List Bool.
 From CB Require Import Common.IntN Wasm.Syntax Gen.Limits Wasm.Validate Wasm.ValidateLimits
-  Wasm.Typing Wasm.ValidateProofs Wasm.Leb128 Wasm.Leb128Proofs.
+  Wasm.Typing Wasm.ValidateProofs Wasm.ValidateComplete Wasm.Sem Wasm.TypeSound Wasm.Accepted
+  Wasm.C09Examples Wasm.Leb128 Wasm.Leb128Proofs Wasm.Leb128Signed Wasm.Imports.
 Import ListNotations.
 
 (** Validation is a total function: structural recursion over the opcode list, no fuel. *)
@@ -35,6 +36,63 @@ Example validate_sound_hypotheses_satisfiable :
   validate_func ex_ctx ex_body = Some 1%nat /\ ends_early ex_ctx ex_body = false.
 Proof. exact validate_sound_nonvacuous. Qed.
 Print Assumptions validate_sound_hypotheses_satisfiable.
+
+(** Completeness on the reachable-code fragment: a well-typed body in which the stack-polymorphic
+    instructions (unreachable, br, br_table, return) occur only as the last instruction of a
+    sequence (no instruction is validated in the unreachable state of a frame), with switch sizes
+    within MAX_SWITCH_SIZE and sign-extension operators only if the parser admits them, in a
+    context whose function type indices exist, is accepted (with alignment 0). *)
+Theorem validate_complete_partial :
+  forall c, Forall (fun ti => ti < length (vc_types c))%nat (vc_funcs c) ->
+  forall is, body_ok (tctx_of c) is -> seq_cond (vc_signext c) is = true ->
+    exists h, validate_func c (map (fun o => (o, 0%N)) (flatten_body is)) = Some h.
+Proof. exact validate_complete_partial_thm. Qed.
+Print Assumptions validate_complete_partial.
+Example validate_complete_hypotheses_satisfiable :
+  body_ok (tctx_of ex_ctx) is_live /\ seq_cond true is_live = true /\ length is_live = 3%nat /\
+  Forall (fun ti => ti < length (vc_types ex_ctx))%nat (vc_funcs ex_ctx).
+Proof. exact validate_complete_hypotheses. Qed.
+Print Assumptions validate_complete_hypotheses_satisfiable.
+
+(** Type soundness of the reference semantics (preservation + progress, all instructions
+    including calls and call_indirect): in a well-typed module, with hosts that respect the
+    types of the imports, invoking a function on arguments of its parameter types from a
+    well-typed store never yields [RStuck]; a returned store is well typed and the result has
+    the declared type. *)
+Theorem sem_type_sound :
+  forall host page_cap m fuel s fi args ft,
+    module_ok m -> host_ok host m -> store_ok m s ->
+    nth_error (ftypes m) fi = Some ft -> map type_of_val args = ft_params ft ->
+    inv_ok m ft (invoke host page_cap m fuel s fi args).
+Proof. exact invoke_safe. Qed.
+Print Assumptions sem_type_sound.
+
+Theorem run_never_stuck :
+  forall host page_cap m fuel fi args ft,
+    module_ok m -> segments_ok m -> host_ok host m ->
+    nth_error (ftypes m) fi = Some ft -> map type_of_val args = ft_params ft ->
+    run host page_cap m fuel fi args <> Stuck.
+Proof. exact run_never_stuck_thm. Qed.
+Print Assumptions run_never_stuck.
+
+(** [accepted_never_stuck]: validation (model of validate.rs) + validate_sound + type soundness.
+    A module accepted by [validate_module] (outside KF-C09-1), decoded as [m], instantiates, and
+    no invocation with well-typed arguments ever reaches the [Stuck] outcome of the reference
+    semantics - for every fuel, embedder page cap and type-respecting host. *)
+Theorem accepted_never_stuck :
+  forall signext vm m host page_cap fuel fi args ft,
+    validate_module signext vm = true -> no_trailing signext vm -> corresponds vm m ->
+    host_ok host m ->
+    nth_error (ftypes m) fi = Some ft -> map type_of_val args = ft_params ft ->
+    run host page_cap m fuel fi args <> Stuck.
+Proof. exact accepted_never_stuck_thm. Qed.
+Print Assumptions accepted_never_stuck.
+Example accepted_never_stuck_hypotheses_satisfiable :
+  validate_module true vm_ex = true /\ no_trailing true vm_ex /\ corresponds vm_ex m_ex /\
+  host_ok no_host m_ex /\
+  nth_error (ftypes m_ex) 0 = Some {| ft_params := [T_i32]; ft_result := Some T_i32 |}.
+Proof. exact accepted_never_stuck_hypotheses. Qed.
+Print Assumptions accepted_never_stuck_hypotheses_satisfiable.
 
 (** Every memory instruction of an accepted body has at most the natural alignment. *)
 Theorem validate_alignment_ok :
@@ -83,6 +141,38 @@ Theorem limits_consistency :
 Proof. exact limits_consistent. Qed.
 Print Assumptions limits_consistency.
 
+(** The memory bound handed to the interpreter by compilation ([Module::compile]: min(declared
+    max, MAX_NUM_PAGES), tied to the real artifact by the correspondence run) never exceeds
+    MAX_NUM_PAGES, so memory.grow's [set_len] stays inside the preallocated buffer. *)
+Theorem artifact_memory_bounded :
+  forall signext m init mx,
+    validate_module signext m = true -> artifact_memory m = Some (init, mx) ->
+    (init <= mx /\ mx <= MAX_NUM_PAGES /\ mx * PAGE_SIZE <= MAX_NUM_PAGES * PAGE_SIZE /\
+     MAX_NUM_PAGES * PAGE_SIZE < 2 ^ 32)%N.
+Proof. exact artifact_memory_bounded_thm. Qed.
+Print Assumptions artifact_memory_bounded.
+
+(** Permitted imports and exports (transcription of the v0 / v1 ConcordiumAllowedImports, tied to
+    the implementation query by query): only the listed host functions of module "concordium", with
+    exactly the listed types and not duplicated, are admitted; entrypoint exports have type
+    [i64] -> i32 and names of at most 100 graphic ASCII characters. *)
+Theorem import_only_listed :
+  forall table dup md name ft, import_ok table dup md name ft = true ->
+    dup = false /\ md = "concordium"%string /\ In (name, ft_params ft, ft_result ft) table.
+Proof. exact import_only_listed_thm. Qed.
+Print Assumptions import_only_listed.
+Theorem export_v0_entry :
+  forall name ft, export_ok_v0 name ft = true ->
+    ft_params ft = [T_i64] /\ ft_result ft = Some T_i32 /\
+    (String.length name <= MAX_EXPORT_NAME_LEN)%nat /\ is_entry_name name = true.
+Proof. exact export_v0_entry_thm. Qed.
+Print Assumptions export_v0_entry.
+Theorem export_v1_entry :
+  forall name ft, export_ok_v1 name ft = true -> (String.length name <= MAX_EXPORT_NAME_LEN)%nat /\
+    (is_entry_name name = true -> ft_params ft = [T_i64] /\ ft_result ft = Some T_i32).
+Proof. exact export_v1_entry_thm. Qed.
+Print Assumptions export_v1_entry.
+
 (** LEB128 readers: round trip of the canonical encodings, bounded consumption (decoding is a
     total function reading at most 5 / 10 bytes), range of 32-bit values. *)
 Theorem leb_u32_roundtrip :
@@ -93,6 +183,14 @@ Theorem leb_u64_roundtrip :
   forall n rest, (n < 2 ^ 64)%N -> decode_u64 (uenc 10 n ++ rest) = Some (n, rest).
 Proof. exact leb_u64_roundtrip_thm. Qed.
 Print Assumptions leb_u64_roundtrip.
+Theorem leb_s32_roundtrip :
+  forall z rest, (- 2 ^ 31 <= z < 2 ^ 31)%Z -> decode_s32 (senc 5 z ++ rest) = Some (z, rest).
+Proof. exact leb_s32_roundtrip_thm. Qed.
+Print Assumptions leb_s32_roundtrip.
+Theorem leb_s64_roundtrip :
+  forall z rest, (- 2 ^ 63 <= z < 2 ^ 63)%Z -> decode_s64 (senc 10 z ++ rest) = Some (z, rest).
+Proof. exact leb_s64_roundtrip_thm. Qed.
+Print Assumptions leb_s64_roundtrip.
 Theorem leb_decode_u32_bounded :
   forall bs v r, decode_u32 bs = Some (v, r) ->
     (v < 2 ^ 32)%N /\ exists pre, bs = pre ++ r /\ (1 <= length pre <= 5)%nat.
